@@ -111,6 +111,9 @@ class World:
         self.probe_depth = 0
         self.last_event = None
 
+    def spec_of(self, name):
+        return next((d for d in self.spec['devices'] if d['name'] == name), {})
+
     def val(self, v):
         return self.args[v] if isinstance(v, str) else v
 
@@ -207,6 +210,9 @@ def build(world):
             cls = _hashed(WProc, world) if wp else PartProcessor
             obj = cls(name, up, world.val(d.get('cycle', 0)),
                       resources_for_processing=None if res is None else {r: world.val(a) for r, a in res.items()}, **v0)
+            if d.get('repair_on_the_spot'):
+                # a user's shutdown callback that repairs the machine at once (registered after the monitors' callbacks)
+                world.deferred.append(lambda obj=obj: obj.add_shutdown_callback(lambda m, is_failure, part: m.restore_functionality()))
             if wp:
                 # instance attributes (a class built with type(...) would push the symbolic numbers through a C call,
                 # which makes CrossHair enumerate their values)
@@ -271,6 +277,8 @@ def build(world):
             obj = Cms(world.maintainer, name, **v0)
         else:
             raise ValueError(k)
+        if d.get('pre_offset') is not None:
+            obj.offset_next_cycle_time(world.val(d['pre_offset']))      # requested by the user's script before the start
         world.dev[key] = obj
         world.kind[key] = k
         world.order.append(key)
@@ -452,7 +460,7 @@ def run_world(world, monitors):
 
 
 VALUE_KEYS = {'cycle', 'delay', 'value', 'value0', 't', 'amount', 'capacity', 'dur', 'cost', 'needcap', 'interval', 'horizon',
-              'addvalue', 'finish_offset', 'recv_addvalue'}
+              'addvalue', 'finish_offset', 'recv_addvalue', 'pre_offset'}
 VALUE_CONTAINERS = {'pools', 'res', 'batches', 'horizons', 'durs', 'needs', 'costs'}   # 'durs' may be a dict (work orders) or a list (scheduler)
 
 
@@ -835,6 +843,10 @@ class CycleMon(Monitor):
                 self.busy[n] = None
                 self.done[n] = set()
                 d.add_receive_part_callback(self._received)     # registered last: sees the cycle time in effect
+                if w.spec_of(n).get('pre_offset') is not None:
+                    # a one-shot offset the user's script requested before the simulation starts (applied by the builder)
+                    self.pending_offset[n] = w.zval(w.spec_of(n)['pre_offset'])
+                    self.ctx.goal('offset_applied')
                 if k == 'proc':
                     d.add_shutdown_callback(self._down)
                     d.add_restored_callback(self._up)
@@ -1083,7 +1095,10 @@ class UptimeMon(Monitor):
                     pb, ob = s['part_before'], s['out_before']
                     ctx.require(d._part is None, 'failure kept the part in process', n)
                     ctx.require(d._output is ob, 'failure dropped or changed the finished part', n)
-                    ctx.require(not d.is_operational(), 'machine operational right after a failure', n)
+                    if w.spec_of(n).get('repair_on_the_spot'):
+                        ctx.require(d.is_operational(), 'machine repaired by a shutdown callback is not operational', n)
+                    else:
+                        ctx.require(not d.is_operational(), 'machine operational right after a failure', n)
                     if pb is not None:
                         ctx.require(recs[-1][1] == pb.id, 'failure log does not name the part in process', n)
                         ctx.goal('failure_lost_a_part')
@@ -1114,7 +1129,10 @@ class UptimeMon(Monitor):
             return
         nsd, nrs, oper = s.pop('cb_before')
         if op['k'] == 'shutdown':
-            if oper:
+            if oper and self.w.spec_of(op['dev']).get('repair_on_the_spot'):
+                ctx.require(len(s['sd']) == nsd + 2 and len(s['rs']) == nrs + 2 and s['oper'],
+                            'shutdown() of a machine whose shutdown callback restores it: callbacks not run once each', op['dev'])
+            elif oper:
                 ctx.require(len(s['sd']) == nsd + 2 and not s['oper'], 'shutdown() of an operational machine did not shut it down once', op['dev'])
             else:
                 ctx.goal('repeated_shutdown')
